@@ -197,6 +197,7 @@ fn digest_run<B: Serialize>(sc: &Scenario<B>, vs: &[Violation], st_before: (u64,
 pub fn worker<L: Lane>(a: &WorkerArgs) -> i32 {
     let mut st = Stats::default();
     let mut violations: Vec<Value> = Vec::new();
+    let mut sig_counts: BTreeMap<String, u64> = BTreeMap::new();
     let started = std::time::Instant::now();
     let mut idx = a.shard;
     while idx < a.runs {
@@ -234,6 +235,14 @@ pub fn worker<L: Lane>(a: &WorkerArgs) -> i32 {
             }
         }
         for (k, v) in vs.into_iter().enumerate() {
+            // at most a few replay files per signature and worker; the rest is only counted
+            let seen = sig_counts.entry(v.signature.clone()).or_insert(0u64);
+            *seen += 1;
+            if *seen > 3 {
+                violations.push(json!({"signature": v.signature, "class": v.class, "op": v.op,
+                                       "detail": v.detail, "replay": Value::Null, "run_index": idx}));
+                continue;
+            }
             let mut sc2 = sc.clone();
             if let (Some(ci), Some(tr)) = (v.conf_index, v.trace.clone()) {
                 if ci < sc2.confs.len() {
